@@ -160,7 +160,8 @@ class C12(Spec):
     component = 'dlist'
     driver = 'dlist'
     lib_srcs = ['dlist.c']
-    header_words = ('keys', 'nlists', 'cmpmode')
+    header_words = ('keys', 'nlists', 'cmpmode', 'vsign')
+    vsign_every = 2
     rule = ('cases = corpus + one case per edge of the breadth-first closure of the Coq model over a small scope '
             '(shortest path to the state + the operation; states identified by sizes and both raw link walks of every '
             'list) + seeded random histories; a case is non-trivial when its model trace has at least two completed '
